@@ -297,6 +297,12 @@ func (s *Session) Read(b []byte) (n int, err error) {
 			verifHookReadBeforeWait(s)
 			select {
 			case <-s.closedChan:
+				if s.recvQueue.Len() > 0 {
+					// Segments may have arrived after the recvQueue was
+					// checked above and before the session was closed.
+					// Deliver them before reporting the end of stream.
+					continue
+				}
 				if s.recvIncomplete.Load() {
 					// Some segments sent before the close request
 					// never arrived. This is not a clean end of stream.
